@@ -12,6 +12,9 @@ import (
 func (g *Gen) newVC(name string, fn *ssa.Function, fc *FuncContract) *VC {
 	d := newDecls()
 	d.strUF = g.strUF
+	if fc != nil && fc.Opts["strings"] == "uf" {
+		d.strUF = true
+	}
 	d.heapSort["$alloc"] = "Int"
 	vc := &VC{g: g, d: d, fn: fn, c: fc, name: name, cdecl: map[string]bool{}, notes: map[string]bool{}, ghostT: map[string]types.Type{},
 		strLits: map[string]bool{}, ghostDefs: map[string]*ghostDef{}, heapsRead: map[string]bool{}, pureDefs: map[string]bool{}, definingRec: map[string]bool{}}
@@ -48,9 +51,6 @@ func (g *Gen) verifyFunc(fc *FuncContract) (*VC, error) {
 		if isRefLike(p.Type()) {
 			pc = and(pc, fmt.Sprintf("(< %s $alloc@0)", n))
 		}
-		if vc.d.sortOf(p.Type()) == "Slice" {
-			pc = and(pc, fmt.Sprintf("(< (s.arr %s) $alloc@0)", n))
-		}
 		env.vars[sig.params[i].name] = tv{t: n, ty: p.Type()}
 	}
 	for _, fv := range fn.FreeVars {
@@ -60,6 +60,7 @@ func (g *Gen) verifyFunc(fc *FuncContract) (*VC, error) {
 		if isRefLike(fv.Type()) {
 			pc = and(pc, fmt.Sprintf("(and (< %s $alloc@0) (> %s 0))", n, n))
 		}
+		pc = and(pc, vc.typeAssume(n, fv.Type(), st))
 	}
 	// ghost variables
 	for _, gv := range fc.Ghosts {
@@ -192,7 +193,6 @@ func (g *Gen) verifyFunc(fc *FuncContract) (*VC, error) {
 
 // frameObligations: everything outside the modifies set is unchanged for objects that existed at entry.
 func (vc *VC) frameObligations(fr *Frame, fc *FuncContract, penv *SpecEnv, rpc string, rst *State) error {
-	entry := vc.entrySt
 	var names []string
 	for k := range rst.m {
 		if strings.HasPrefix(k, "$") {
@@ -201,7 +201,7 @@ func (vc *VC) frameObligations(fr *Frame, fc *FuncContract, penv *SpecEnv, rpc s
 		names = append(names, k)
 	}
 	sort.Strings(names)
-	if rst.epoch != entry.epoch {
+	if rst.havocked() {
 		vc.addObl(&Obligation{Name: "modifies:*", Kind: "modifies", PC: rpc, Goal: "false", Src: "function havocs the whole heap (call without frame) but declares a modifies clause"})
 		return nil
 	}
